@@ -188,6 +188,51 @@ def run_flood(b: Batch, variant, n_events=12000):
     b.nontrivial(["flood", variant, len(em.produced) // 1000])
 
 
+def run_slow_emitter(b: Batch, what, busy=6.5):
+    """An emitter that is in the middle of a long scan (a polling walk of a big tree, a slow network listing) when stop() /
+    unschedule() arrives: the call waits for it - however long - and does not come back with the thread still running."""
+    from watchdog.observers.api import BaseObserver, EventEmitter
+
+    entered = threading.Event()
+
+    class Busy(EventEmitter):
+        def queue_events(self, timeout):
+            entered.set()
+            time.sleep(busy)  # one uninterruptible unit of work
+
+    obs = BaseObserver(Busy, timeout=0.02)
+
+    class H:
+        def dispatch(self, event):
+            pass
+
+    threads0 = set(threading.enumerate())
+    w = obs.schedule(H(), "/slow", recursive=False)
+    obs.start()
+    entered.wait(5)
+    time.sleep(0.2)
+    ems = list(obs.emitters)
+    b.case()
+    b.count("cases_judged")
+    b.count("slow_emitter_cases")
+    rs = {"kind": "slow1", "what": what}
+    call = (lambda: obs.unschedule(w)) if what == "unschedule" else obs.stop
+    st, _v, th = monitors.call_with_watchdog(call, busy + 15.0, name=f"call-{what}")
+    alive_at_return = [monitors.thread_desc(e) for e in ems if e.is_alive()]
+    if st == "hung":
+        b.inconc(f"C06 slow emitter: {what}() did not return within {busy + 15:.0f} s")
+    elif alive_at_return:
+        b.violation("thread-alive-when-stop-join-returned", f"{what}() returned while the emitter it was meant to end was still in the middle of its work: {alive_at_return}",
+                    witness={"what": what, "busy": busy}, replay_spec=rs)
+    obs.stop()
+    obs.join(busy + 10)
+    new = [t for t in threading.enumerate() if t not in threads0 and apireal.is_library_thread(t)]
+    left = monitors.wait_threads_gone(new, grace=busy + 5.0)
+    if left:
+        b.violation("thread-alive-after-stop-join", f"slow emitter: {[monitors.thread_desc(t) for t in left]}", witness={"what": what}, replay_spec=rs)
+    b.nontrivial(["slow", what])
+
+
 def run_multi(b: Batch, kind, r, led):
     """2-3 threads issue random calls concurrently; a handler makes re-entrant calls from the dispatcher thread."""
     c = apireal.Case(kind, led)
@@ -299,9 +344,11 @@ def plan(tier, seed, jobs):
             specs.append({"kind": "holds", "emitter": "inotify", "seed": seed, "j": j, "of": 4, "budget_s": 60})
         specs.append({"kind": "unmount", "n": 6})
         specs.append({"kind": "flood", "n": 2})
+        specs.append({"kind": "slow"})
     else:
         specs.append({"kind": "unmount", "n": 60})
         specs.append({"kind": "flood", "n": 20})
+        specs.append({"kind": "slow"})
         for j in range(jobs * 2):
             specs.append({"kind": "seqs", "emitter": "inotify", "n": 8000, "seed": seed, "j": j, "budget_s": 200, "enum": True, "of": jobs * 2})
         for j in range(jobs):
@@ -376,7 +423,12 @@ def run_batch(spec):
                             b.nontrivial(["hold", list(map(str, pt)), nth, partner, ev])
     elif k == "flood":
         for n in range(spec["n"]):
-            run_flood(b, n % 2, 12000 if n < 2 else 12000 * (1 + n % 5))
+            run_flood(b, n % 2, (12000, 40000)[n] if n < 2 else 12000 * (1 + n % 5))
+    elif k == "slow":
+        for what in ("stop", "unschedule"):
+            run_slow_emitter(b, what)
+    elif k == "slow1":
+        run_slow_emitter(b, spec["what"])
     elif k == "flood1":
         run_flood(b, spec["variant"])
     elif k == "unmount":
